@@ -389,6 +389,11 @@ def _r2(ctx, f):
             return True
         if isinstance(st, ast.Assign):
             v = U(st.targets[0])
+            # the generator held in a local and consumed by a loop: `g = all_simple_paths(..); for p in g: acc.append(p)`
+            for lp_ in [l for l in ast.walk(fi.node) if isinstance(l, ast.For) and U(l.iter) == v]:
+                apps = pm.find("M_l.append(%s)" % U(lp_.target), lp_)
+                if apps and isinstance(lp_.body[0], ast.Expr) and apps[0][0] is lp_.body[0].value:
+                    return True
             uses = pm.find_any(["M_l.extend(list(%s))" % v, "M_l.extend(%s)" % v, "M_t = list(%s)" % v], fi.node)
             if uses and "M_t" in uses[0][1]:
                 return bool(pm.find("M_l.extend(%s)" % U(uses[0][1]["M_t"]), fi.node))
